@@ -1,5 +1,5 @@
 (* C08 lemmas, part 6: the dict/JSON form of a model WITH arithmetic priors.  The operand attribute names
-   are recomputed on reload (left_/right_, or right_ alone when both operands are one re-linked prior), so
+   are recomputed on reload (the defaults left_/right_, see d91c8d6), so
    the paths through an arithmetic prior change; the values do not: under the renaming established by the
    decoder every assignment of values to parameters yields the same instance. *)
 From Coq Require Import List String Bool Arith PeanoNat Lia Permutation Sorted.
@@ -15,104 +15,6 @@ Section P6.
   Notation snode := (snode V).
   Notation pspec := (pspec V).
   Notation node := (node V).
-
-  (* attribute names of arithmetic priors after a dict reload, on the ModelTree *)
-  Definition same_leaf (a b : node) : bool :=
-    match a, b with NPrior p, NPrior q => Nat.eqb p q | _, _ => false end.
-
-  Fixpoint cnd (n : node) : node :=
-    match n with
-    | NPrior p => NPrior p
-    | NConst v => NConst v
-    | NTuple ms =>
-        NTuple ((fix go (ms : list (string * (nat * node))) : list (string * (nat * node)) :=
-                   match ms with [] => [] | (k, (i, c)) :: r => (k, (i, cnd c)) :: go r end) ms)
-    | NBin o _ _ l r =>
-        if same_leaf (cnd l) (cnd r) then NBin o "right_" "right_" (cnd l) (cnd r)
-        else NBin o "left_" "right_" (cnd l) (cnd r)
-    | NModel cls ctor attrs =>
-        NModel cls ctor ((fix go (a : list (string * node)) : list (string * node) :=
-                            match a with [] => [] | (k, c) :: r => (k, cnd c) :: go r end) attrs)
-    | NColl attrs =>
-        NColl ((fix go (a : list (string * node)) : list (string * node) :=
-                  match a with [] => [] | (k, c) :: r => (k, cnd c) :: go r end) attrs)
-    end.
-
-  Definition cnd_attrs (a : list (string * node)) : list (string * node) := map (fun kc => (fst kc, cnd (snd kc))) a.
-  Definition cnd_members (ms : list (string * (nat * node))) : list (string * (nat * node)) :=
-    map (fun m => (fst m, (fst (snd m), cnd (snd (snd m))))) ms.
-  Lemma cnd_attrs_eq (a : list (string * node)) :
-    (fix go (a : list (string * node)) : list (string * node) :=
-       match a with [] => [] | (k, c) :: r => (k, cnd c) :: go r end) a = cnd_attrs a.
-  Proof. induction a as [|[k c] a IH]; simpl; [reflexivity|]. rewrite IH. reflexivity. Qed.
-  Lemma cnd_members_eq (ms : list (string * (nat * node))) :
-    (fix go (ms : list (string * (nat * node))) : list (string * (nat * node)) :=
-       match ms with [] => [] | (k, (i, c)) :: r => (k, (i, cnd c)) :: go r end) ms = cnd_members ms.
-  Proof. induction ms as [|[k [i c]] ms IH]; simpl; [reflexivity|]. rewrite IH. reflexivity. Qed.
-
-  (* values never look at the names *)
-  Lemma inst_cnd (a : nat -> option V) (n : node) : inst V bin a (cnd n) = inst V bin a n.
-  Proof.
-    induction n as [q|c|ms IH|o ln rn l r IHl IHr|cls ctor attrs IH|attrs IH] using (node_ind' V).
-    - reflexivity.
-    - reflexivity.
-    - cbn [cnd]. rewrite cnd_members_eq. rewrite !inst_tuple. f_equal. f_equal. unfold member_vals. f_equal.
-      unfold cnd_members. rewrite map_map. apply map_ext_in. intros [k [i c]] Hin. simpl. f_equal.
-      rewrite Forall_forall in IH. exact (IH _ Hin).
-    - cbn [cnd]. destruct (same_leaf (cnd l) (cnd r)); cbn [inst]; rewrite IHl, IHr; reflexivity.
-    - cbn [cnd inst]. rewrite cnd_attrs_eq. rewrite !inst_attrs_map.
-      assert (M : map (fun kv => (fst kv, inst V bin a (snd kv))) (cnd_attrs attrs)
-                  = map (fun kv => (fst kv, inst V bin a (snd kv))) attrs).
-      { unfold cnd_attrs. rewrite map_map. apply map_ext_in. intros [k c] Hin. simpl. f_equal.
-        rewrite Forall_forall in IH. exact (IH _ Hin). }
-      rewrite M. reflexivity.
-    - cbn [cnd inst]. rewrite cnd_attrs_eq. rewrite !inst_attrs_map. f_equal.
-      unfold cnd_attrs. rewrite map_map. apply map_ext_in. intros [k c] Hin. simpl. f_equal.
-      rewrite Forall_forall in IH. exact (IH _ Hin).
-  Qed.
-
-  (* the SET of parameters of a well-formed model is unchanged *)
-  Lemma ids_cnd (n : node) : wf V n -> forall q, In q (prior_ids V (cnd n)) <-> In q (prior_ids V n).
-  Proof.
-    unfold prior_ids.
-    induction n as [q0|c|ms IH|o ln rn l r IHl IHr|cls ctor attrs IH|attrs IH] using (node_ind' V); intros W q.
-    - tauto.
-    - tauto.
-    - cbn [cnd walk]. rewrite cnd_members_eq. destruct W as [_ W].
-      induction ms as [|[k [i c]] ms IHms]; [tauto|].
-      inversion IH as [|? ? Hc Hr]; subst. simpl in Hc. destruct W as [W1 W2].
-      cbn [cnd_members map fst snd]. rewrite !map_app, !in_app_iff, !snd_prefix. rewrite (Hc W1 q), (IHms Hr W2). tauto.
-    - destruct W as [Hne [Wl Wr]]. cbn [cnd walk].
-      destruct (String.eqb_spec ln rn) as [E|_]; [contradiction|].
-      rewrite map_app, in_app_iff, !snd_prefix.
-      destruct (same_leaf (cnd l) (cnd r)) eqn:SL; cbn [walk].
-      + rewrite String.eqb_refl, snd_prefix.
-        (* both operands are one prior *)
-        destruct (cnd l) as [p| | | | |] eqn:El; try discriminate. destruct (cnd r) as [p'| | | | |] eqn:Er; try discriminate.
-        simpl in SL. apply Nat.eqb_eq in SL. subst p'.
-        rewrite <- (IHl Wl q), <- (IHr Wr q). simpl. tauto.
-      + simpl. rewrite map_app, in_app_iff, !snd_prefix. rewrite (IHl Wl q), (IHr Wr q). tauto.
-    - cbn [cnd walk]. rewrite cnd_attrs_eq. destruct W as [_ W].
-      induction attrs as [|[k c] attrs IHa]; [tauto|].
-      inversion IH as [|? ? Hc Hr]; subst. simpl in Hc. destruct W as [W1 W2].
-      cbn [cnd_attrs map fst snd]. rewrite !map_app, !in_app_iff, !snd_prefix. rewrite (Hc W1 q), (IHa Hr W2). tauto.
-    - cbn [cnd walk]. rewrite cnd_attrs_eq. destruct W as [_ W].
-      induction attrs as [|[k c] attrs IHa]; [tauto|].
-      inversion IH as [|? ? Hc Hr]; subst. simpl in Hc. destruct W as [W1 W2].
-      cbn [cnd_attrs map fst snd]. rewrite !map_app, !in_app_iff, !snd_prefix. rewrite (Hc W1 q), (IHa Hr W2). tauto.
-  Qed.
-
-  Theorem vector_cnd (n : node) (vec : list V) :
-    wf V n -> ordered_ids V (cnd n) = ordered_ids V n /\ prior_count V (cnd n) = prior_count V n /\
-             inst_from_vector V bin (cnd n) vec = inst_from_vector V bin n vec.
-  Proof.
-    intro W.
-    assert (E : ordered_ids V (cnd n) = ordered_ids V n).
-    { apply strict_sorted_unique; try apply ordered_ids_strict. intro q. rewrite !ordered_ids_in. apply ids_cnd. exact W. }
-    split; [exact E|]. split.
-    - rewrite <- !ordered_ids_length, E. reflexivity.
-    - unfold inst_from_vector. rewrite E. apply inst_cnd.
-  Qed.
 
   (* ---------- the ModelTree of the dict image ---------- *)
   Variable falsy : V -> bool.
@@ -135,74 +37,42 @@ Section P6.
     apply negb_true_iff in H. unfold dict_pre, as_instance. rewrite H. split; reflexivity.
   Qed.
 
-  Lemma erase_is_prior (b : bool) (m : snode) (p : nat) : erase V b m = NPrior p -> exists sp, m = SPrior p sp.
-  Proof.
-    destruct m as [q sp|v|items|k ch asr]; simpl; intro H; try discriminate.
-    - inversion H; subst. exists sp. reflexivity.
-    - destruct k; try discriminate.
-      + destruct b; discriminate.
-      + destruct ((fix go (ch0 : list (string * snode)) : list (string * node) :=
-                     match ch0 with [] => [] | (nm, c) :: r => (nm, erase V false c) :: go r end) ch) as [|[ln l] [|[rn r] [|x t]]];
-          discriminate.
-  Qed.
-
   Section Image.
     Variable f : nat -> pspec -> nat * pspec.
     Variable s : nat -> nat.
     Hypothesis Hf : forall p sp, fst (f p sp) = s p.
     Notation img := (pmap V f fdict skip post).
 
-    Lemma same_prior_erase (x y : snode) :
-      same_prior V x y = same_leaf (erase V false x) (erase V false y).
-    Proof.
-      destruct (erase V false x) as [p|v|ms|o ln rn l r|cls ctor attrs|attrs] eqn:Ex.
-      - destruct (erase_is_prior false x p Ex) as [sp ->].
-        destruct (erase V false y) as [q|v|ms|o ln rn l r|cls ctor attrs|attrs] eqn:Ey.
-        + destruct (erase_is_prior false y q Ey) as [sq ->]. reflexivity.
-        + destruct y; simpl in *; try discriminate; reflexivity.
-        + destruct y; simpl in *; try discriminate; reflexivity.
-        + destruct y; simpl in *; try discriminate; reflexivity.
-        + destruct y; simpl in *; try discriminate; reflexivity.
-        + destruct y; simpl in *; try discriminate; reflexivity.
-      - destruct x; simpl in *; try discriminate; reflexivity.
-      - destruct x; simpl in *; try discriminate; reflexivity.
-      - destruct x; simpl in *; try discriminate; reflexivity.
-      - destruct x; simpl in *; try discriminate; reflexivity.
-      - destruct x; simpl in *; try discriminate; reflexivity.
-    Qed.
-
     Lemma dict_post_bin (o : binop) ch0 asr0 (ln' rn' : string) (l' r' : snode) asr :
-      dict_post V cf (SNode (KBin o) ch0 asr0) [(ln', l'); (rn', r')] asr =
-      if same_prior V l' r' then SNode (KBin o) [("right_", l'); ("right_", r')] asr
-      else SNode (KBin o) [("left_", l'); ("right_", r')] asr.
+      dict_post V cf (SNode (KBin o) ch0 asr0) [(ln', l'); (rn', r')] asr = SNode (KBin o) [("left_", l'); ("right_", r')] asr.
     Proof. reflexivity. Qed.
 
     Lemma erase_dict_image (n : snode) :
       forall_nodes V dict_node_ok2 n = true ->
-      forall b, erase V b (img n) = cnd (ren V s (erase V b n)).
+      forall b, erase V b (img n) = cn V (ren V s (erase V b n)).
     Proof.
       induction n as [p sp|v|items|k ch asr IH] using (snode_ind' V); intros HQ b.
       - simpl. rewrite Hf. reflexivity.
       - reflexivity.
-      - cbn [pmap erase ren cnd]. apply forall_nodes_top in HQ. simpl in HQ.
+      - cbn [pmap erase ren cn]. apply forall_nodes_top in HQ. simpl in HQ.
         assert (Ef : fdict items = items).
         { unfold dict_filter. destruct (fix_falsy cf); [reflexivity|]. simpl in HQ. apply filter_all. exact HQ. }
-        rewrite Ef. f_equal. rewrite ren_attrs_eq, cnd_attrs_eq. unfold ren_attrs, cnd_attrs. rewrite !map_map. reflexivity.
+        rewrite Ef. f_equal. rewrite ren_attrs_eq, cn_attrs_eq. unfold ren_attrs, cn_attrs. rewrite !map_map. reflexivity.
       - rewrite forall_nodes_node in HQ. apply andb_true_iff in HQ. destruct HQ as [Qn Qc].
         rewrite pmap_node. destruct (ok2_pre _ Qn) as [_ SK]. rewrite SK.
-        assert (E : forall b', ech V b' (pchmap V f fdict skip post ch) = cnd_attrs (ren_attrs V s (ech V b' ch))).
-        { intro b'. unfold ech, pchmap, cnd_attrs, ren_attrs. rewrite !map_map. apply map_ext_in. intros [nm c] Hin. simpl.
+        assert (E : forall b', ech V b' (pchmap V f fdict skip post ch) = cn_attrs V (ren_attrs V s (ech V b' ch))).
+        { intro b'. unfold ech, pchmap, cn_attrs, ren_attrs. rewrite !map_map. apply map_ext_in. intros [nm c] Hin. simpl.
           rewrite Forall_forall in IH. rewrite forallb_forall in Qc.
           pose proof (IH _ Hin (Qc _ Hin) b') as E0. simpl in E0. rewrite E0. reflexivity. }
         destruct k as [cls ctor| |idx|o|cls ctor].
         + (* Model with free parameters *)
           cbn [dict_node_ok2] in Qn. apply negb_true_iff in Qn. cbn [dict_post]. rewrite Qn.
-          cbn [erase]. rewrite !erase_children, E. cbn [ren cnd]. rewrite ren_attrs_eq, cnd_attrs_eq. reflexivity.
-        + unfold dict_post, rebuild_same. cbn [erase]. rewrite !erase_children, E. cbn [ren cnd].
-          rewrite ren_attrs_eq, cnd_attrs_eq. reflexivity.
+          cbn [erase]. rewrite !erase_children, E. cbn [ren cn]. rewrite ren_attrs_eq, cn_attrs_eq. reflexivity.
+        + unfold dict_post, rebuild_same. cbn [erase]. rewrite !erase_children, E. cbn [ren cn].
+          rewrite ren_attrs_eq, cn_attrs_eq. reflexivity.
         + unfold dict_post, rebuild_same. cbn [erase]. rewrite !erase_children. destruct b.
-          * rewrite E. cbn [ren cnd]. rewrite ren_attrs_eq, cnd_attrs_eq. reflexivity.
-          * rewrite E. cbn [ren cnd]. rewrite ren_members_eq, cnd_members_eq. f_equal.
+          * rewrite E. cbn [ren cn]. rewrite ren_attrs_eq, cn_attrs_eq. reflexivity.
+          * rewrite E. cbn [ren cn]. rewrite ren_members_eq, cn_members_eq. f_equal.
             clear Qn SK. generalize (ech V false ch). intro l. revert idx. induction l as [|[nm c] l IHl]; intros [|i idx]; simpl; try reflexivity.
             rewrite IHl. reflexivity.
         + (* arithmetic prior *)
@@ -212,13 +82,10 @@ Section P6.
           * inversion IH as [|? ? Hl H2]; subst. inversion H2 as [|? ? Hr _]; subst. simpl in Hl, Hr, Qc.
             apply andb_true_iff in Qc. destruct Qc as [Ql Qc]. apply andb_true_iff in Qc. destruct Qc as [Qr _].
             cbn [pchmap map fst snd]. rewrite dict_post_bin.
-            rewrite same_prior_erase, (Hl Ql false), (Hr Qr false).
-            cbn [erase ren cnd].
-            destruct (same_leaf (cnd (ren V s (erase V false l))) (cnd (ren V s (erase V false r)))); cbn [erase];
-              rewrite (Hl Ql false), (Hr Qr false); reflexivity.
+            cbn [erase ren cn]. rewrite (Hl Ql false), (Hr Qr false). reflexivity.
           * destruct x as [xn xc]. reflexivity.
-        + unfold dict_post, rebuild_same. cbn [erase]. rewrite !erase_children, E. cbn [ren cnd].
-          rewrite ren_attrs_eq, cnd_attrs_eq. reflexivity.
+        + unfold dict_post, rebuild_same. cbn [erase]. rewrite !erase_children, E. cbn [ren cn].
+          rewrite ren_attrs_eq, cn_attrs_eq. reflexivity.
     Qed.
   End Image.
 
@@ -278,8 +145,8 @@ Section P6.
     unfold tree. rewrite (erase_dict_image (look V st') (sigma_of V st') Hs n HQ false).
     assert (W' : wf V (ren V (sigma_of V st') (erase V false n))) by (apply wf_ren; exact W).
     split.
-    - destruct (vector_cnd _ [] W') as [_ [Ec _]]. rewrite Ec. apply prior_count_ren.
+    - destruct (vector_cn V bin _ [] W') as [_ [Ec _]]. rewrite Ec. apply prior_count_ren.
       intros a b Ha Hb. apply Hi; apply (erase_ids_incl V n false); assumption.
-    - intro a. rewrite inst_cnd. apply inst_ren.
+    - intro a. rewrite inst_cn. apply inst_ren.
   Qed.
 End P6.
